@@ -3,6 +3,7 @@ package main
 // Generators of the lattice cases (part 1).
 
 import (
+	"strings"
 	. "vh/kit"
 )
 
@@ -29,6 +30,7 @@ func pmOK(caps ...string) pmCfg { return pmCfg{Kind: 2, Meta: 2, VerValid: true,
 // (facts that cannot be realised together are adjusted, never the model).
 func normalize(c *lcase) {
 	fix := func(s *scCfg) {
+		deriveResp(s)
 		if s.Format == "" {
 			s.Format = MtJWS
 		}
@@ -67,7 +69,13 @@ func normalize(c *lcase) {
 			fix(it)
 			// what belongs to the verifier / request is shared by all signatures
 			it.Auth, it.IdentFail, it.TsFail, it.Rev = base.Auth, base.IdentFail, base.TsFail, base.Rev
-			it.Resp, it.AllProc, it.TI, it.RevV, it.MetaReq = base.Resp, base.AllProc, base.TI, base.RevV, base.MetaReq
+			it.RespJSON = base.RespJSON
+			deriveResp(it)
+			if it.RespJSON == "" {
+				it.Resp, it.AllProc, it.TI, it.RevV = base.Resp, base.AllProc, base.TI, base.RevV
+			}
+			it.MetaReq = base.MetaReq
+			it.Variant = (it.Variant & 5) | (base.Variant &^ 5)
 			it.DescMatch, it.DescGen = true, false
 			if !it.Crit {
 				it.AllProc = true
@@ -209,7 +217,7 @@ func randSc(r *Rng) scCfg {
 	return s
 }
 
-func genLattice(a *Args, r *Rng, emit func(c *lcase)) {
+func genLattice(a *Args, r *Rng, emit func(c *lcase), history func(base lcase, steps []func(c *lcase))) {
 	thorough := a.Tier == "thorough"
 	put := func(c lcase) {
 		normalize(&c)
@@ -463,6 +471,173 @@ func genLattice(a *Args, r *Rng, emit func(c *lcase)) {
 		put(lcase{Fam: "loop", Entry: "NVerify", Blob: doc(2, l), PM: pmOK(), Impl: implCfg{Kind: 1}, N: nreqCfg{Max: 1, Ref: 2, Items: []scCfg{okSc()}}})
 	}
 
+	// ---- order: the good signature at every position among failing ones, every attempt limit ----
+	kinds := []func(s *scCfg){
+		func(s *scCfg) {},
+		func(s *scCfg) { s.Sig = 1 },
+		func(s *scCfg) { s.Sig = -1 },
+		func(s *scCfg) { s.ExpFail = true },
+	}
+	for a0 := 0; a0 < 4; a0++ {
+		for a1 := 0; a1 < 4; a1++ {
+			for a2 := 0; a2 < 4; a2++ {
+				for _, max := range []int{1, 2, 3, 4} {
+					if !thorough && (a0+a1+a2+max)%2 == 1 && a0 != 0 && a1 != 0 && a2 != 0 {
+						continue
+					}
+					var items []scCfg
+					for _, k := range []int{a0, a1, a2} {
+						it := okSc()
+						kinds[k](&it)
+						items = append(items, it)
+					}
+					put(lcase{Fam: "order", Entry: "NVerify", OCI: doc(2, strict), Blob: doc(2, strict), PM: pmOK("TI", "Rev"), Impl: implCfg{Kind: 1}, N: nreqCfg{Max: max, Ref: 2, Items: items}})
+				}
+			}
+		}
+	}
+	// every ordered arrangement of the capabilities the plugin declares x verdicts
+	arrangements := [][]string{{}, {"TI"}, {"Rev"}, {"Other"}, {"TI", "Rev"}, {"Rev", "TI"}, {"TI", "Other"}, {"Other", "TI"}, {"Rev", "Other"}, {"Other", "Rev"},
+		{"TI", "Rev", "Other"}, {"TI", "Other", "Rev"}, {"Rev", "TI", "Other"}, {"Rev", "Other", "TI"}, {"Other", "TI", "Rev"}, {"Other", "Rev", "TI"}, {"TI", "TI"}, {"Rev", "TI", "Rev"}}
+	for _, caps := range arrangements {
+		for _, l := range []levelSpec{strict, {"permissive", nil}, {"audit", nil}, customLevels[0]} {
+			for ti := 0; ti < 3; ti++ {
+				for rv := 0; rv < 3; rv++ {
+					if !thorough && (ti+rv+len(caps))%2 == 1 && ti != 2 && rv != 2 {
+						continue
+					}
+					s0 := okSc()
+					s0.PAttr, s0.Crit, s0.TI, s0.RevV = 2, (ti+rv)%2 == 0, ti, rv
+					put(lcase{Fam: "order", Entry: Pick(r, []string{"Verify", "VerifyBlob"}), OCI: doc(2, l), Blob: doc(2, l), PM: pmOK(caps...), Impl: implCfg{Kind: 1}, Sc: s0})
+				}
+			}
+		}
+	}
+
+	// ---- plugin-json: verify-signature answers as JSON text of the wrong shape that still decodes ----
+	texts := pluginShapeTexts()
+	for ti2, text := range texts {
+		for li, l := range []levelSpec{strict, {"permissive", nil}, customLevels[0]} {
+			for _, crit := range []bool{true, false} {
+				if !thorough && !crit && (ti2+li)%3 != 0 {
+					continue
+				}
+				s0 := okSc()
+				s0.PAttr, s0.Crit, s0.RespJSON = 2, crit, text
+				if (ti2+li)%4 == 0 {
+					s0.Format = MtCOSE
+				}
+				put(lcase{Fam: "plugin-json", Entry: []string{"Verify", "VerifyBlob", "NVerifyBlob"}[(ti2+li)%3], OCI: doc(2, l), Blob: doc(2, l), PM: pmOK("TI", "Rev"), Impl: implCfg{Kind: 1}, Sc: s0})
+			}
+		}
+	}
+	// through notation.Verify: two signatures, the first without critical attribute
+	for ti2, text := range texts {
+		if !thorough && ti2%3 != 0 {
+			continue
+		}
+		i0, i1 := okSc(), okSc()
+		i0.PAttr, i0.RespJSON, i0.ExpFail = 2, text, true
+		i1.PAttr, i1.Crit = 2, true
+		put(lcase{Fam: "plugin-json", Entry: "NVerify", OCI: doc(2, strict), Blob: doc(2, strict), PM: pmOK("Rev", "TI"), Impl: implCfg{Kind: 1}, N: nreqCfg{Max: 3, Ref: 2, Items: []scCfg{i0, i1}}})
+	}
+
+	// ---- empty vs nil vs absent ----
+	for variant := 1; variant < 32; variant++ {
+		for _, entry := range []string{"Verify", "VerifyBlob", "NVerifyBlob", "NVerify"} {
+			if !thorough && (variant+len(entry))%2 == 0 && variant&(variant-1) != 0 {
+				continue
+			}
+			s0 := okSc()
+			s0.Variant = variant
+			s0.PAttr, s0.Crit = 2, variant&8 != 0
+			if variant&8 != 0 {
+				s0.AllProc, s0.TI, s0.RevV = false, 0, 0
+			}
+			if variant&1 != 0 {
+				s0.Sig = 0
+			}
+			c := lcase{Fam: "empty-nil", Entry: entry, OCI: doc(2, strict), Blob: doc(2, strict), PM: pmOK("TI", "Rev"), Impl: implCfg{Kind: 1}, Sc: s0}
+			if entry == "NVerify" {
+				c.N = nreqCfg{Max: 2, Ref: 2, Items: []scCfg{s0}}
+			}
+			put(c)
+		}
+	}
+
+	// ---- history: ONE verifier instance, several calls whose verdicts differ ----
+	on := func(entry string, mod func(s *scCfg)) func(c *lcase) {
+		return func(c *lcase) {
+			c.Entry = entry
+			mod(&c.Sc)
+			if entry == "NVerify" {
+				bad := c.Sc
+				bad.Sig = 1
+				c.N = nreqCfg{Max: 3, Ref: 2, Items: []scCfg{bad, c.Sc}}
+			}
+		}
+	}
+	good := func(s *scCfg) {}
+	badSig := func(s *scCfg) { s.Sig = 1 }
+	expired := func(s *scCfg) { s.ExpFail = true }
+	mism := func(s *scCfg) { s.DescMatch = false }
+	noPayload := func(s *scCfg) { s.Payload = 0 }
+	wantPlugin := func(s *scCfg) { s.PAttr, s.Crit = 2, true }
+	metaOK := func(s *scCfg) { s.MetaReq, s.Payload = true, 2 }
+	metaBad := func(s *scCfg) { s.MetaReq, s.Payload = true, 3 }
+	scripts := [][]func(c *lcase){
+		{on("Verify", good), on("Verify", badSig), on("Verify", good), on("Verify", mism), on("Verify", good)},
+		{on("Verify", badSig), on("Verify", good), on("VerifyBlob", good), on("VerifyBlob", expired), on("VerifyBlob", good)},
+		{on("SkipVerify", good), on("Verify", good), on("NVerify", good), on("NVerifyBlob", good), on("Verify", noPayload), on("Verify", good)},
+		{on("Verify", wantPlugin), on("Verify", good), on("Verify", wantPlugin), on("VerifyBlob", wantPlugin), on("NVerify", wantPlugin)},
+		{on("Verify", metaOK), on("Verify", metaBad), on("Verify", good), on("NVerifyBlob", metaBad), on("NVerifyBlob", metaOK)},
+		{on("NVerify", good), on("NVerify", expired), on("NVerify", good), on("SkipVerify", good)},
+		{on("VerifyBlob", mism), on("VerifyBlob", good), on("NVerifyBlob", mism), on("NVerifyBlob", good)},
+	}
+	hLevels := []levelSpec{strict, {"permissive", nil}, {"audit", nil}, {"skip", nil}, customLevels[0], customLevels[1]}
+	for si, script := range scripts {
+		for li, l := range hLevels {
+			if !thorough && (si+li)%2 == 1 && l.Level != "skip" {
+				continue
+			}
+			b := okSc()
+			switch (si + li) % 4 {
+			case 1:
+				b.TI = 2
+			case 2:
+				b.RevV = 2
+			case 3:
+				b.Rev = 1
+			}
+			history(lcase{Fam: "history", OCI: doc(2, l), Blob: doc(2, l), PM: pmOK("TI", "Rev"), Impl: implCfg{Kind: 1}, Sc: b}, script)
+		}
+	}
+	// random histories
+	nHist := 25
+	if thorough {
+		nHist = 1500
+	}
+	envMods := []func(s *scCfg){good, badSig, expired, mism, noPayload, wantPlugin, metaOK, metaBad,
+		func(s *scCfg) { s.Format = MtCOSE }, func(s *scCfg) { s.Sig = 0 }, func(s *scCfg) { s.PAttr = 1 }, func(s *scCfg) { s.Crit = true }, func(s *scCfg) { s.DescGen = true }}
+	for k := 0; k < nHist; k++ {
+		b := okSc()
+		b.Auth = Pick(r, []int{0, 0, 0, 2})
+		b.IdentFail = r.Chance(1, 5)
+		b.Rev = Pick(r, []int{0, 0, 1, 2})
+		b.TI, b.RevV = Pick(r, []int{1, 1, 2, 0}), Pick(r, []int{1, 1, 2, 0})
+		b.AllProc = !r.Chance(1, 4)
+		l := Pick(r, hLevels)
+		base := lcase{Fam: "history", OCI: doc(2, l), Blob: doc(2, l), PM: Pick(r, pmStates[4:]), Impl: implCfg{Kind: 1}, Sc: b}
+		if r.Chance(1, 6) {
+			base.PM = pmCfg{Kind: r.Intn(2)}
+		}
+		var steps []func(c *lcase)
+		for j := 2 + r.Intn(3); j > 0; j-- {
+			steps = append(steps, on(Pick(r, allEntries), Pick(r, envMods)))
+		}
+		history(base, steps)
+	}
+
 	// ---- constructor refusals ----
 	for _, entry := range allEntries {
 		put(lcase{Fam: "construct", Entry: entry, TSNil: true, OCI: doc(2, strict), Blob: doc(2, strict), PM: pmOK(), Impl: implCfg{Kind: 1}, Sc: okSc()})
@@ -478,4 +653,40 @@ func genLattice(a *Args, r *Rng, emit func(c *lcase)) {
 			put(lcase{Fam: "usermeta", Entry: "UserMeta", UM: um, Sc: s, Impl: implCfg{Kind: 1}})
 		}
 	}
+}
+
+// pluginShapeTexts: stdout texts of a verify-signature command whose JSON has
+// the wrong shape in the interface{}-typed / map-typed fields but (mostly)
+// still decodes into plugin.VerifySignatureResponse.
+func pluginShapeTexts() []string {
+	const ti, rv = `"SIGNATURE_VERIFIER.TRUSTED_IDENTITY"`, `"SIGNATURE_VERIFIER.REVOCATION_CHECK"`
+	okRes := `{` + ti + `:{"success":true},` + rv + `:{"success":true}}`
+	ck := `"` + critKey + `"`
+	processed := []string{
+		`[` + ck + `]`, `[]`, `null`, `[null]`, `[null,` + ck + `]`, `[` + ck + `,null]`, `[1,2.5,-3e10,` + ck + `]`, `[[` + ck + `]]`, `[[],{}, ` + ck + `]`,
+		`[{"` + critKey + `":true}]`, `[[` + ck + `],[1,[2,[3]]],{"a":{"b":[null]}}]`, `[{"a":[1,2]},[{"b":null}],` + ck + `,[{"c":{}}]]`,
+		`[true,false,` + ck + `]`, `["IO.EXAMPLE.CRITICAL"]`, `["` + critKey + ` "]`, `[` + ck + `,` + ck + `]`, `["","` + hdrPlugin + `"]`, `[[1,2],[1,2]]`, `[{"k":[1]},{"k":[1]}]`,
+		`[1e400]`, `"` + critKey + `"`, `{"0":` + ck + `}`, `[` + strings.Repeat(`[`, 40) + ck + strings.Repeat(`]`, 40) + `]`,
+	}
+	results := []string{
+		okRes, `{}`, `null`, `{` + ti + `:null,` + rv + `:null}`, `{` + ti + `:{"success":true}}`, `{` + rv + `:{"success":false,"reason":"r"}}`,
+		`{` + ti + `:{"success":false},` + rv + `:{"success":false}}`, `{"UNKNOWN.CAPABILITY":{"success":true},` + ti + `:{"success":true},` + rv + `:{"success":true}}`,
+		`{"signature_verifier.trusted_identity":{"success":true},` + rv + `:{"success":true}}`, `{` + ti + `:{"success":false},` + ti + `:{"success":true},` + rv + `:{"success":true}}`,
+		`{` + ti + `:{},` + rv + `:{"SUCCESS":true}}`, `{` + ti + `:{"success":true,"reason":null,"extra":[1,{"a":2}]},` + rv + `:{"success":true}}`,
+		`{` + ti + `:{"success":"yes"},` + rv + `:{"success":true}}`, `{` + ti + `:[true],` + rv + `:{"success":true}}`, `[` + ti + `]`, `{"":null}`,
+	}
+	wrap := func(res, proc string) string {
+		return `{"verificationResults":` + res + `,"processedAttributes":` + proc + `}`
+	}
+	var texts []string
+	for _, p := range processed {
+		texts = append(texts, wrap(okRes, p))
+	}
+	for _, q := range results {
+		texts = append(texts, wrap(q, `[`+ck+`]`), wrap(q, `[{"x":[null]},`+ck+`]`))
+	}
+	texts = append(texts, `{}`, `null`, `[]`, `"x"`, `{"processedAttributes":[`+ck+`]}`, `{"verificationResults":`+okRes+`}`,
+		`{"VerificationResults":`+okRes+`,"ProcessedAttributes":[`+ck+`]}`, wrap(okRes, `[`+ck+`]`)+` trailing`, `{"verificationResults":`+okRes+`,"processedAttributes":[`+ck+`],"processedAttributes":[[1]]}`,
+		`{"verificationResults":`+okRes+`,"processedAttributes":[[1]],"processedAttributes":[`+ck+`]}`)
+	return texts
 }
